@@ -27,6 +27,7 @@ type RelayRulesPlan struct {
 	Origin     []string        `json:"origin"`      // outcome of the n-th pull connection: accept | refuse | mute | die_hs | refuse_play
 	PushTarget []string        `json:"push_target"` // per push connection attempt (all targets, in order): accept | refuse | die_hs
 	PubQuery   string          `json:"pub_query,omitempty"`
+	PubKind    string          `json:"pub_kind,omitempty"` // "" / rtmp | rtsp: what kind of publisher the push scenario uses
 	Ops        []RelayRulesOp  `json:"ops"`
 }
 
@@ -167,6 +168,8 @@ type relayRulesRun struct {
 	Origins  []*pullConnObs
 	Pushes   []*pushConnObs
 	pub      *actors.RtmpClient
+	rtspPub  *actors.RtspClient
+	rtspLeft bool
 	subs     []*actors.RtmpClient
 	apiLog   []string
 	problems []string
@@ -307,6 +310,21 @@ func execRelayRules(k *sim.Kernel, pl RelayRulesPlan) {
 				}
 			}
 		case "pub_start":
+			if pl.PubKind == "rtsp" {
+				if rr.rtspPub == nil {
+					a := actors.NewRtspClient(k, "pub", "pub", fmt.Sprintf("rtsp://127.0.0.1:%d/live/st0", PortRtsp), true)
+					a.Sdp = "v=0\r\no=- 0 0 IN IP4 127.0.0.1\r\ns=No Name\r\nc=IN IP4 127.0.0.1\r\nt=0 0\r\nm=video 0 RTP/AVP 96\r\na=rtpmap:96 H264/90000\r\na=fmtp:96 packetization-mode=1\r\na=control:streamid=0\r\n"
+					a.Tracks = actors.ParseSdpTracks(a.Sdp)
+					a.Connect(PortRtsp, 10)
+					k.Settle()
+					rr.rtspPub = a
+					if a.Ready {
+						m.hasPub, m2.hasPub = true, true
+						rr.pubIvl = append(rr.pubIvl, ivl{now, -1})
+					}
+				}
+				break
+			}
 			if rr.pub == nil {
 				name := "st0"
 				if pl.PubQuery != "" {
@@ -330,6 +348,17 @@ func execRelayRules(k *sim.Kernel, pl RelayRulesPlan) {
 				k.Settle()
 			}
 		case "pub_stop":
+			if rr.rtspPub != nil && !rr.rtspLeft {
+				rr.rtspLeft = true
+				rr.rtspPub.Leave(op.Reset)
+				k.Settle()
+				for i := range rr.pubIvl {
+					if rr.pubIvl[i].to < 0 {
+						rr.pubIvl[i].to = now
+					}
+				}
+				m.hasPub, m2.hasPub = false, false
+			}
 			if rr.pub != nil && rr.pub.LeftStep < 0 {
 				rr.pub.Leave(op.Reset)
 				k.Settle()
@@ -391,6 +420,31 @@ func execRelayRules(k *sim.Kernel, pl RelayRulesPlan) {
 			rr.apis = append(rr.apis, apiRec{rr.evSeq, "stop", now, res.ErrorCode(), 0, 0, 0})
 			if m.static && res.Done && res.ErrorCode() != 1002 && (res.ErrorCode() == 0) != stopped && (res.ErrorCode() == 0) != stopped2 {
 				k.Violate("C17.api-stop-response", "stop_relay_pull answered error_code=%d but by the rules a pull session %s attached (model: %s)", res.ErrorCode(), map[bool]string{true: "was", false: "was not"}[stopped], strings.Join(m.log, "; "))
+			}
+		case "api_kick":
+			st := rr.W.Api(fmt.Sprintf("statk%d", oi), "/api/stat/group?stream_name=st0", nil)
+			sid := ""
+			if data, _ := st.JSON["data"].(map[string]interface{}); data != nil {
+				if pull, _ := data["pull"].(map[string]interface{}); pull != nil {
+					sid, _ = pull["session_id"].(string)
+				}
+			}
+			if sid == "" {
+				break
+			}
+			body, _ := json.Marshal(map[string]interface{}{"stream_name": "st0", "session_id": sid})
+			res := rr.W.Api(fmt.Sprintf("kick%d", oi), "/api/ctrl/kick_session", body)
+			rr.apiLog = append(rr.apiLog, fmt.Sprintf("t=%d api_kick %s -> code=%d", now, sid, res.ErrorCode()))
+			if res.Done && res.ErrorCode() == 0 {
+				rr.evSeq++
+				rr.apis = append(rr.apis, apiRec{rr.evSeq, "kick", now, 0, 0, 0, 0})
+				// a kicked pull is stopped and, if it was started through the API, no longer enabled
+				for _, x := range []*pullModel{m, m2} {
+					x.api = false
+					x.inFlight = false
+					x.stop(now, "kick")
+				}
+				k.Probe("c17_pull_kicked")
 			}
 		case "release_origin":
 			for _, o := range rr.Origins {
@@ -482,7 +536,10 @@ func execRelayRules(k *sim.Kernel, pl RelayRulesPlan) {
 		k.Probe("c17_rule_stops")
 	}
 	// ---- push
-	if len(pl.Conf.PushAddrs) > 0 && rr.pub != nil && rr.pub.Ready {
+	pubReady := (rr.pub != nil && rr.pub.Ready) || (rr.rtspPub != nil && rr.rtspPub.Ready)
+	pubGone := (rr.pub != nil && rr.pub.LeftStep >= 0) || rr.rtspLeft
+	pubClosed := (rr.pub != nil && rr.pub.Closed) || (rr.rtspPub != nil && rr.rtspPub.Closed)
+	if len(pl.Conf.PushAddrs) > 0 && pubReady {
 		k.Probe("nontrivial")
 		perTarget := map[string][]*pushConnObs{}
 		for _, p := range rr.Pushes {
@@ -503,6 +560,12 @@ func execRelayRules(k *sim.Kernel, pl RelayRulesPlan) {
 					if pl.PubQuery != "" {
 						want += "?" + pl.PubQuery
 					}
+					if pl.PubKind == "rtsp" {
+						want = p.Stub.Stream // only an RTMP publisher's URL parameters are to be forwarded
+						if !strings.HasPrefix(p.Stub.Stream, "st0") {
+							k.Violate("C17.push-url-param", "push target %s was asked to publish %q for the RTSP publisher of st0", addr, clip(p.Stub.Stream, 80))
+						}
+					}
 					if p.Stub.Stream != want {
 						k.Violate("C17.push-url-param", "push target %s was asked to publish %q (len %d), the publisher's name+parameters are %q (len %d)", addr, clip(p.Stub.Stream, 80), len(p.Stub.Stream), clip(want, 80), len(want))
 					}
@@ -512,9 +575,8 @@ func execRelayRules(k *sim.Kernel, pl RelayRulesPlan) {
 			if open > 1 {
 				k.Violate("C17.push-duplicate", "%d push sessions are open to target %s at once", open, addr)
 			}
-			pubGone := rr.pub.LeftStep >= 0
 			// a failed target is retried on later ticks for as long as the publisher stays
-			if !pubGone && !rr.pub.Closed && open == 0 && len(ps) > 0 {
+			if !pubGone && !pubClosed && open == 0 && len(ps) > 0 {
 				last := ps[len(ps)-1]
 				if now := k.NowMs(); now-last.AtMs > 2600 {
 					k.Violate("C17.push-no-retry", "push to target %s failed (attempt at %d ms, target behaviour %q) and was not retried although the publisher is still there at %d ms", addr, last.AtMs, last.Mode, now)
@@ -555,6 +617,10 @@ func genC17Plan(r *sim.Rng, tier string) RelayRulesPlan {
 		case 3:
 			pl.PubQuery = "k=" + strings.Repeat("w", 3000+r.Intn(3000))
 		}
+		if r.Bool(0.3) {
+			pl.PubKind, pl.PubQuery = "rtsp", ""
+			pl.Conf.RtspEnable = true
+		}
 		pl.Ops = append(pl.Ops, RelayRulesOp{Kind: "pub_start"})
 		for i := 0; i < 1+r.Intn(4); i++ {
 			pl.Ops = append(pl.Ops, RelayRulesOp{Kind: "advance", Ms: 300 + r.Intn(2500)})
@@ -587,6 +653,8 @@ func genC17Plan(r *sim.Rng, tier string) RelayRulesPlan {
 				pl.Ops = append(pl.Ops, RelayRulesOp{Kind: "sub_leave", Reset: r.Bool(0.3)})
 			case 3:
 				pl.Ops = append(pl.Ops, RelayRulesOp{Kind: "origin_close", Reset: r.Bool(0.5)})
+			case 5:
+				pl.Ops = append(pl.Ops, RelayRulesOp{Kind: "api_kick"})
 			case 4:
 				if r.Bool(0.5) {
 					pl.Ops = append(pl.Ops, RelayRulesOp{Kind: "pub_start"})
@@ -620,6 +688,8 @@ func genC17Plan(r *sim.Rng, tier string) RelayRulesPlan {
 			pl.Ops = append(pl.Ops, RelayRulesOp{Kind: "api_stop"})
 		case 5:
 			pl.Ops = append(pl.Ops, RelayRulesOp{Kind: "release_origin"})
+		case 6:
+			pl.Ops = append(pl.Ops, RelayRulesOp{Kind: "api_kick"})
 		case 4:
 			pl.Ops = append(pl.Ops, RelayRulesOp{Kind: "api_start", Retry: []int{-1, 0, 1, 2}[r.Intn(4)], AutoStop: []int{-1, 0, 1500, 4000}[r.Intn(4)]})
 		default:
@@ -723,15 +793,16 @@ func (rr *relayRulesRun) checkApiInvariants(k *sim.Kernel) {
 		lastStop, lastStart := int64(-1), int64(-1)
 		for _, a := range rr.apis {
 			if a.seq < o.Seq {
-				if a.kind == "stop" {
+				if a.kind == "stop" || (a.kind == "kick" && rr.Plan.Conf.StaticPull == "") {
+					// (a kick ends the session and the API enablement; a statically configured pull stays enabled)
 					lastStop = int64(a.seq)
-				} else {
+				} else if a.kind == "start" {
 					lastStart = int64(a.seq)
 				}
 			}
 		}
 		if lastStop >= 0 && lastStop > lastStart {
-			k.Violate("C17.attempt-after-stop", "pull attempt #%d started at %d ms although stop_relay_pull was called at %d ms and the pull was not started again", i, o.AtMs, lastStop)
+			k.Violate("C17.attempt-after-stop", "pull attempt #%d started at %d ms although stop_relay_pull / kick_session was called (event %d) and the pull was not started again", i, o.AtMs, lastStop)
 		}
 	}
 	// I3: retry budget: attempts since the last explicit (re)start or stop never exceed budget+1
@@ -744,7 +815,7 @@ func (rr *relayRulesRun) checkApiInvariants(k *sim.Kernel) {
 					budget = a.retry
 					multi++
 				}
-				if a.kind == "stop" {
+				if a.kind == "stop" || a.kind == "kick" {
 					since = a.at
 				}
 			}
@@ -825,7 +896,7 @@ func (rr *relayRulesRun) checkApiInvariants(k *sim.Kernel) {
 		if closed >= 0 && inAny(rr.subIvl, closed) && o.Stub.Conn != nil && !o.Stub.PeerClosedFirst() {
 			stopped := false
 			for _, a := range rr.apis {
-				if a.kind == "stop" && a.at <= closed && a.at >= o.AtMs {
+				if (a.kind == "stop" || a.kind == "kick") && a.at <= closed && a.at >= o.AtMs {
 					stopped = true
 				}
 			}
@@ -838,7 +909,7 @@ func (rr *relayRulesRun) checkApiInvariants(k *sim.Kernel) {
 			// without a consumer for the configured time (the rule is evaluated once per 1 s tick)
 			stopped := false
 			for _, a := range rr.apis {
-				if a.kind == "stop" && a.at <= closed && a.at >= o.AtMs {
+				if (a.kind == "stop" || a.kind == "kick") && a.at <= closed && a.at >= o.AtMs {
 					stopped = true
 				}
 			}
